@@ -276,6 +276,79 @@ elif what == "poison:broad":
         part(nm, fn)
     out["nan"], out["ran"], out["errors"] = nan, ran, errors
 
+elif what == "history":
+    # the same target calculations in a FRESH interpreter (prelude = False) and after unrelated earlier calculations in the same interpreter
+    # (prelude = True: other species, a larger basis with the same number of states and the same seeds, another cell, another functional)
+    from eminus import Atoms, SCF
+    from eminus.dft import guess_pseudo, guess_random
+    from eminus.utils import pseudo_uniform
+
+    if args.get("prelude"):
+        big = Atoms(["Be", "H"], [[0.0, 0.0, 0.0], [0.0, 0.0, 2.5]], ecut=6, a=9, unrestricted=True)
+        sb = SCF(big, xc="pbe", opt={"sd": 2}, etol=1e-12, guess="pseudo")
+        sb.run()
+        guess_random(sb)
+        guess_pseudo(sb)
+        pseudo_uniform((2, 40, 3), seed=1234)
+        other = Atoms(["Li", "H"], [[0.1, 0.2, 0.3], [0.3, 0.1, 3.2]], ecut=5, a=[[8.0, 0.5, 0.0], [0.0, 7.5, 0.3], [0.2, 0.0, 9.0]], unrestricted=True)
+        other.kpts.kmesh = [2, 1, 1]
+        so = SCF(other, xc="lda,chachiyo", opt={"pccg": 2}, etol=1e-12, guess="pseudo", pot="coulomb")
+        so.run()
+        SCF(Atoms("He", [0, 0, 0], ecut=4, a=6), opt={"sd": 1}).run()
+    for tag, kw in (("pseudo", dict(guess="pseudo")), ("random", dict(guess="random")), ("sym-pseudo", dict(guess="sym-pseudo"))):
+        at = lih(unrestricted=True)
+        scf = SCF(at, opt={"pccg": 3}, etol=1e-12, **kw)
+        scf.run()
+        energies(f"hist.{tag}", scf)
+        bits(f"hist.W.{tag}", np.concatenate([np.asarray(w).ravel() for w in scf.W]))
+    at = lih()
+    at.kpts.kmesh = [2, 1, 1]
+    scf = SCF(at, xc="pbe", opt={"pccg": 2}, etol=1e-12)
+    scf.run()
+    energies("hist.2k", scf)
+    bits("hist.pseudo_uniform", pseudo_uniform((2, 7, 3), seed=1234))
+    bits("hist.guess_pseudo", np.concatenate([np.asarray(w).ravel() for w in guess_pseudo(scf, seed=7)]))
+    bits("hist.guess_random", np.concatenate([np.asarray(w).ravel() for w in guess_random(scf, seed=7)]))
+
+elif what == "poison:diff":
+    # every xp.empty / empty_like allocation is filled with one of two DIFFERENT junk patterns (floats, complex and integers alike); the
+    # stored state of the objects (whole-object JSON) and the results must not depend on which one it was
+    from eminus import Atoms, SCF, backend, write
+
+    junk = {"A": (1.25e300, 77777), "B": (-7.5e250, -55555)}[args.get("fill", "A")]
+
+    def filled(shape, dtype=float, **k):
+        dt = np.dtype(dtype)
+        return np.full(shape, junk[0] if dt.kind in "fc" else junk[1], dtype=dt)
+
+    backend.empty = filled
+    backend.empty_like = lambda a, dtype=None, **k: filled(np.shape(a), dtype or np.asarray(a).dtype)
+    with np.errstate(all="ignore"):
+        at = Atoms(["Ga", "H"], [[0.1, 0.2, 0.3], [0.3, 0.1, 3.2]], ecut=3, a=8, unrestricted=True)
+        at.kpts.kmesh = [2, 1, 1]
+        scf = SCF(at, xc="pbe", opt={"pccg": 2}, etol=1e-12)
+        scf.run()
+        energies("diff.energies", scf)
+        for ik in range(len(scf.W)):
+            bits(f"diff.W{ik}", scf.W[ik])
+        with tempfile.TemporaryDirectory() as d:
+            write(scf, os.path.join(d, "scf.json"))
+            text("scf.json", os.path.join(d, "scf.json"))
+            write(scf.atoms, os.path.join(d, "atoms.json"))
+            text("atoms.json", os.path.join(d, "atoms.json"))
+        # the elapsed wall-clock time of the minimisation is stored in the object (_opt_log[...]["time"]): a time stamp, excluded like the date line
+        js = json.loads(out["file:scf.json"])
+        for entry in (js.get("_opt_log") or {}).values():
+            if isinstance(entry, dict):
+                entry.pop("time", None)
+        canon = json.dumps(js, sort_keys=True)
+        out["file:scf.json"] = hashlib.sha1(canon.encode()).hexdigest() + " " + str(len(canon))  # noqa: S324
+        # locate differing members: one digest per top-level member of the SCF / GTH objects
+        for obj, tag in ((scf, "scf"), (scf.gth, "gth"), (scf.atoms, "atoms")):
+            for k, v in sorted(vars(obj).items()):
+                if isinstance(v, np.ndarray):
+                    bits(f"member.{tag}.{k}", v)
+
 elif what.startswith("seedonly:"):
     fn = what[9:]
     from eminus import Atoms, SCF
